@@ -59,6 +59,14 @@ func C06(e *Env) {
 	r.Rule("R06.5", "each diagnostic names the referrer and the missing name; each validator's result combines all of its sub-validators on every return (no early acceptance)", 6)
 	r.Rule("R06.7", "both existence validators are wired into the output validation step of the self-hosted runner", 4)
 
+	c16Flags(e)
+	r.Rule("R16.1", "each ignore flag is bound to its own variable (shared with C16)", 2)
+	r.Rule("R16.3", "the two existence validators are switched by their own ignore flag and by nothing else (not by --stub): Active receives exactly the payload field (shared with C16)", 2)
+	r.Rule("R16.2", "the payload field is the negation of exactly its flag (shared with C16)", 2)
+	c10RunE(e)
+	r.Rule("R10.6", "every diagnostic is reported: the numbered list prints every element of grouperror.Collection(err), without cap, skip or merge (shared with C10)", 3)
+	r.Rule("R10.5", "the runner's error is what RunE returns (shared with C10)", 1)
+	r.Rule("R10.7", "writer discipline of the list (shared with C10)", 1)
 	a := newApath(e.P)
 	ot := outputType(e, "Output")
 	if ot == nil {
@@ -567,6 +575,11 @@ func C07(e *Env) {
 	r.Rule("R07.4", "parameter edges exist: Param.DependsOn ← ParamExpr.DependsOnParams ← ArgExpr.DependsOnParams ← union of the tokens' references; all five dependency fields are copied into output.Arg wherever one is built", 3)
 	r.Rule("R07.5", "per-element dependency lists are fresh (declared inside the loop) and every element is visited (no early exit)", 8)
 
+	for _, m := range []struct{ name, typ string }{{"Merge", "Input"}, {"mergeService", "Service"}} {
+		mergeLiteralRule(e, m.name, m.typ)
+	}
+	r.Rule("R09.1", "no declaration is lost before the graph is built: decorators, calls and tags of all files are concatenated, arguments replaced only by a non-empty later list (shared with C09)", 16)
+	r.Rule("R09.1c", "behaviour classes of the merge combinators (shared with C09)", 3)
 	fn := e.P.Func(outputRel, "Output.BuildDependencyGraph")
 	ot := outputType(e, "Output")
 	if fn == nil || ot == nil {
